@@ -641,7 +641,7 @@ func (s *TreeShapeListener) makeAttributeArray(attribs *parser.Attribs_or_modifi
 
 // EnterInplace_tuple is called when production inplace_tuple is entered.
 func (s *TreeShapeListener) EnterInplace_tuple(*parser.Inplace_tupleContext) {
-	s.currentTypePath.Push(MustUnescape(s.fieldname[len(s.fieldname)-1]))
+	s.currentTypePath.Push(s.fieldname[len(s.fieldname)-1])
 	s.typemap = map[string]*sysl.Type{}
 	s.currentApp().Types[s.currentTypePath.Get()] = &sysl.Type{
 		Type: &sysl.Type_Tuple_{
